@@ -352,6 +352,72 @@ Proof.
   repeat (destruct H as [H|H]); subst; pegd_upto.
 Qed.
 
+(* ---------- function names ---------- *)
+Definition lc_b (c : N) : bool := N.leb 97 c && N.leb c 122.
+Definition fnchar_b (c : N) : bool := lc_b c || N.eqb c 95 || is_digit c.
+Lemma lc_bounds c : lc_b c = true -> (97 <= c <= 122)%N.
+Proof. unfold lc_b. intros H. apply andb_true_iff in H. destruct H as [H1 H2]. apply N.leb_le in H1. apply N.leb_le in H2. lia. Qed.
+
+Ltac peg_hook ::= base_hook.
+Lemma fnchar_ok c rest pos :
+  fnchar_b c = true -> RunsG 12 (ECall R_function_name_char) AAtomic (c :: rest) pos (Ok rest (S pos) []).
+Proof.
+  unfold fnchar_b. intros H. apply orb_true_iff in H. destruct H as [H|H]; [apply orb_true_iff in H; destruct H as [H|H]|].
+  - apply lc_bounds in H. pegd_upto.
+  - apply N.eqb_eq in H. subst c. pegd_upto.
+  - apply is_digit_bounds in H. pegd_upto.
+Qed.
+Lemma fnchar_stop rest pos : RunsG 12 (ECall R_function_name_char) AAtomic (40%N :: rest) pos Fail.
+Proof. pegd_upto. Qed.
+
+Definition fname_ok (n : str) : Prop :=
+  match n with c :: r => lc_b c = true /\ forallb fnchar_b r = true | [] => False end.
+
+Lemma function_name_runs n rest pos :
+  fname_ok n ->
+  RunsG (30 + length n) (ECall R_function_name) ANonAtomic (n ++ 40%N :: rest) pos
+        (Ok (40%N :: rest) (pos + length n) [Pair R_function_name pos (pos + length n) []]).
+Proof.
+  intros Hn. destruct n as [|c r]; [destruct Hn|]. destruct Hn as [Hc Hr]. cbn [app].
+  assert (Hrep : RunsG (15 + length r) (ERep (ECall R_function_name_char)) AAtomic (r ++ 40%N :: rest) (S pos)
+                       (Ok (40%N :: rest) (S pos + length r) [])).
+  { eapply runs_conv.
+    - eapply (runs_rep_chars _ grammar 12 (ECall R_function_name_char) fnchar_b).
+      + intros c0 r0 p0 H0. apply fnchar_ok. exact H0.
+      + exact Hr.
+      + apply fnchar_stop.
+    - lia.
+    - reflexivity. }
+  apply lc_bounds in Hc.
+  eapply runs_conv.
+  - eapply runs_call; [reflexivity|]. cbn [call_atomicity].
+    eapply runs_seq.
+    { pegd. }
+    { red_res. pegd. }
+    { red_res. exact Hrep. }
+  - norm_len. bound.
+  - red_res. norm_len. repeat (f_equal; try lia).
+Qed.
+
+Inductive fn1 := FLength | FCount | FValue.
+Inductive fn2 := FMatch | FSearch.
+Definition fn1_name (k : fn1) : str :=
+  match k with
+  | FLength => [108; 101; 110; 103; 116; 104]%N
+  | FCount => [99; 111; 117; 110; 116]%N
+  | FValue => [118; 97; 108; 117; 101]%N
+  end.
+Definition fn2_name (k : fn2) : str :=
+  match k with
+  | FMatch => [109; 97; 116; 99; 104]%N
+  | FSearch => [115; 101; 97; 114; 99; 104]%N
+  end.
+
+Lemma fn1_name_ok k : fname_ok (fn1_name k).
+Proof. destruct k; split; reflexivity. Qed.
+Lemma fn2_name_ok k : fname_ok (fn2_name k).
+Proof. destruct k; split; reflexivity. Qed.
+
 Section Atoms.
   Variable sel : Type.
   Variable stext : sel -> str.
@@ -573,11 +639,283 @@ Section Atoms.
       + red_res. reflexivity.
   Qed.
 
+  Lemma tstop_not_ws_early s : tstop s -> not_ws s.
+  Proof. intros H. apply after_sq_not_ws, tstop_after_sq. exact H. Qed.
+
+  (* ---------- function calls ---------- *)
+  Inductive xfn :=
+  | XFn1 (k : fn1) (a : xarg)
+  | XFn2 (k : fn2) (a b : xarg)
+  with xarg :=
+  | XALit (l : xlit)
+  | XAQuery (abs : bool) (q : list gseg)
+  | XAFn (f : xfn).
+
+  Fixpoint ftext (f : xfn) : str :=
+    match f with
+    | XFn1 k a => fn1_name k ++ 40%N :: argtext a ++ [41%N]
+    | XFn2 k a b => fn2_name k ++ 40%N :: argtext a ++ 44%N :: argtext b ++ [41%N]
+    end
+  with argtext (a : xarg) : str :=
+    match a with
+    | XALit l => xlit_text l
+    | XAQuery abs q => (if abs then 36%N else 64%N) :: gsegs_text q
+    | XAFn f => ftext f
+    end.
+
+  Fixpoint fpair (pos : nat) (f : xfn) : pair rname :=
+    let en := pos + length (ftext f) in
+    match f with
+    | XFn1 k a =>
+        let p1 := pos + length (fn1_name k) in
+        Pair R_function_expr pos en [Pair R_function_name pos p1 []; argpair (p1 + 1) a]
+    | XFn2 k a b =>
+        let p1 := pos + length (fn2_name k) in
+        let p2 := p1 + 1 + length (argtext a) + 1 in
+        Pair R_function_expr pos en [Pair R_function_name pos p1 []; argpair (p1 + 1) a; argpair p2 b]
+    end
+  with argpair (pos : nat) (a : xarg) : pair rname :=
+    let en := pos + length (argtext a) in
+    Pair R_function_argument pos en
+      [match a with
+       | XALit l => xlit_pair pos l
+       | XAQuery abs q =>
+           Pair R_test pos en [Pair (if abs then R_jp_query else R_rel_query) pos en
+                                    [Pair R_segments (pos + 1) en (gsegs_pairs (pos + 1) q)]]
+       | XAFn f => Pair R_test pos en [fpair pos f]
+       end].
+
+  Fixpoint fok (f : xfn) : Prop :=
+    match f with XFn1 _ a => argok a | XFn2 _ a b => argok a /\ argok b end
+  with argok (a : xarg) : Prop :=
+    match a with XALit l => xlit_ok l | XAQuery _ q => Forall gseg_ok q | XAFn f => fok f end.
+
+  Fixpoint fdep (f : xfn) : nat :=
+    match f with XFn1 _ a => 100 + argdep a | XFn2 _ a b => 100 + (argdep a + argdep b) end
+  with argdep (a : xarg) : nat :=
+    match a with
+    | XALit l => 80 + length (xlit_text l)
+    | XAQuery _ q => 120 + (length q + qdep q)
+    | XAFn f => 60 + fdep f
+    end.
+
+  Lemma fdep_ge f : 100 <= fdep f.
+  Proof. destruct f; cbn [fdep]; lia. Qed.
+
+  Scheme xfn_ind2 := Induction for xfn Sort Prop
+  with xarg_ind2 := Induction for xarg Sort Prop.
+  Combined Scheme xfn_xarg_ind from xfn_ind2, xarg_ind2.
+
+  Definition argstop (c : N) : Prop := c = 44%N \/ c = 41%N.
+  Lemma argstop_tstop c : argstop c -> tstop_char c.
+  Proof. unfold argstop, tstop_char. intros [-> | ->]; auto. Qed.
+
+  Lemma ftext_head f tail : exists c t, ftext f ++ tail = c :: t /\ (97 <= c <= 122)%N.
+  Proof. destruct f as [[| |] a|[|] a b]; cbn [ftext fn1_name fn2_name app]; eexists _, _; (split; [reflexivity|lia]). Qed.
+
+  Lemma argtext_not_ws a tail : argok a -> not_ws (argtext a ++ tail).
+  Proof.
+    intros H. destruct a as [l|abs q|f]; cbn [argtext argok] in *.
+    - pose proof (xcmpb_start (XCLit l) tail H) as Hs. cbn [xcmpb_text] in Hs.
+      destruct (xlit_text l ++ tail); [destruct Hs|apply Hs].
+    - destruct abs; cbn [app not_ws]; repeat split; discriminate.
+    - destruct (ftext_head f tail) as [c [t [E Hc]]]. rewrite E. cbn [not_ws]. repeat split; lia.
+  Qed.
+
+  Ltac peg_hook ::= base_hook.
+  Lemma literal_fails_fn f tail pos : RunsG 40 (ECall R_literal) ANonAtomic (ftext f ++ tail) pos Fail.
+  Proof. destruct f as [[| |] a|[|] a b]; cbn [ftext fn1_name fn2_name app]; pegd_upto. Qed.
+  Lemma rel_query_fails_fn f tail pos : RunsG 40 (ECall R_rel_query) ANonAtomic (ftext f ++ tail) pos Fail.
+  Proof. destruct f as [[| |] a|[|] a b]; cbn [ftext fn1_name fn2_name app]; pegd_upto. Qed.
+  Lemma jp_query_fails_fn f tail pos : RunsG 40 (ECall R_jp_query) ANonAtomic (ftext f ++ tail) pos Fail.
+  Proof. destruct f as [[| |] a|[|] a b]; cbn [ftext fn1_name fn2_name app]; pegd_upto. Qed.
+  Lemma singular_query_fails_fn f tail pos : RunsG 40 (ECall R_singular_query) ANonAtomic (ftext f ++ tail) pos Fail.
+  Proof. destruct f as [[| |] a|[|] a b]; cbn [ftext fn1_name fn2_name app]; pegd_upto. Qed.
+  Lemma paren_fails_fn f tail pos : RunsG 40 (ECall R_paren_expr) ANonAtomic (ftext f ++ tail) pos Fail.
+  Proof. destruct f as [[| |] a|[|] a b]; cbn [ftext fn1_name fn2_name app]; pegd_upto. Qed.
+
+  Lemma not_op_none_fn f tail pos :
+    RunsG 10 (EOpt (ECall R_not_op)) ANonAtomic (ftext f ++ tail) pos (Ok (ftext f ++ tail) pos []).
+  Proof. destruct f as [[| |] a|[|] a b]; cbn [ftext fn1_name fn2_name app]; pegd_upto. Qed.
+
+  Definition Pf (f : xfn) : Prop :=
+    fok f -> forall rest pos,
+      RunsG (fdep f) (ECall R_function_expr) ANonAtomic (ftext f ++ rest) pos
+            (Ok rest (pos + length (ftext f)) [fpair pos f]).
+  Definition Pa (a : xarg) : Prop :=
+    argok a -> forall c rest pos, argstop c ->
+      RunsG (argdep a) (ECall R_function_argument) ANonAtomic (argtext a ++ c :: rest) pos
+            (Ok (c :: rest) (pos + length (argtext a)) [argpair pos a]).
+
+  Ltac fn_hook :=
+    lazymatch goal with
+    | |- Runs _ _ (ECall R_WHITESPACE) AAtomic _ _ _ => apply ws_fail; solve_not_ws
+    | |- Runs _ _ (ECall R_S) _ _ _ _ => apply S_none; solve_not_ws
+    | H : forall c rest pos, argstop c -> Runs _ _ (ECall R_function_argument) _ (argtext ?a ++ c :: rest) pos _
+      |- Runs _ _ (ECall R_function_argument) _ (argtext ?a ++ _ :: _) _ _ => apply H; unfold argstop; auto
+    | H : forall rest pos, Runs _ _ (ECall R_function_expr) _ (ftext ?f ++ rest) pos _
+      |- Runs _ _ (ECall R_function_expr) _ (ftext ?f ++ _) _ _ => apply H
+    | H : forall p, Runs _ _ (ECall R_segments) _ (gsegs_text ?q ++ _) p _
+      |- Runs _ _ (ECall R_segments) _ (gsegs_text ?q ++ _) _ _ => apply H
+    | |- Runs _ _ (ECall R_literal) _ (xlit_text _ ++ _ :: _) _ _ => apply literal_runs; assumption
+    | |- Runs _ _ (ECall R_literal) _ (ftext _ ++ _) _ _ => apply literal_fails_fn
+    | |- Runs _ _ (ECall R_rel_query) _ (ftext _ ++ _) _ _ => apply rel_query_fails_fn
+    | |- Runs _ _ (ECall R_jp_query) _ (ftext _ ++ _) _ _ => apply jp_query_fails_fn
+    | |- Runs _ _ (ECall R_singular_query) _ (ftext _ ++ _) _ _ => apply singular_query_fails_fn
+    | |- Runs _ _ (ECall R_function_name) _ (fn1_name _ ++ 40%N :: _) _ _ => apply function_name_runs; apply fn1_name_ok
+    | |- Runs _ _ (ECall R_function_name) _ (fn2_name _ ++ 40%N :: _) _ _ => apply function_name_runs; apply fn2_name_ok
+    end.
+  Ltac peg_hook ::= fn_hook.
+
+  Lemma fn_arg_all : (forall f, Pf f) /\ (forall a, Pa a).
+  Proof.
+    apply xfn_xarg_ind.
+    - (* one argument *)
+      intros k a IHa Hok rest pos. cbn [fok] in Hok. specialize (IHa Hok).
+      pose proof (argtext_not_ws a (41%N :: rest) Hok) as Hnwa.
+      assert (Hnw1 : not_ws (41%N :: rest)) by (cbn [not_ws]; repeat split; lia).
+      assert (Hlen : length (fn1_name k) <= 6) by (destruct k; cbn [fn1_name length]; lia).
+      cbn [ftext fdep fpair]. repeat (rewrite <- app_assoc; cbn [app]).
+      pegd_upto.
+    - (* two arguments *)
+      intros k a IHa b IHb [Hoka Hokb] rest pos. specialize (IHa Hoka). specialize (IHb Hokb).
+      pose proof (argtext_not_ws a (44%N :: argtext b ++ 41%N :: rest) Hoka) as Hnwa.
+      pose proof (argtext_not_ws b (41%N :: rest) Hokb) as Hnwb.
+      assert (Hnw1 : not_ws (41%N :: rest)) by (cbn [not_ws]; repeat split; lia).
+      assert (Hnw2 : not_ws (44%N :: argtext b ++ 41%N :: rest)) by (cbn [not_ws]; repeat split; lia).
+      assert (Hlen : length (fn2_name k) <= 6) by (destruct k; cbn [fn2_name length]; lia).
+      cbn [ftext fdep fpair]. repeat (rewrite <- app_assoc; cbn [app]).
+      pegd_upto.
+    - (* literal *)
+      intros l Hok c rest pos Hc. cbn [argok argtext argdep argpair] in *.
+      pose proof (tstop_qstop c (argstop_tstop c Hc)) as Hq.
+      pegd_upto.
+    - (* query *)
+      intros abs q Hq c rest pos Hc. cbn [argok argtext argdep argpair] in *.
+      pose proof (argstop_tstop c Hc) as Ht.
+      assert (Hss : seg_stop (c :: rest)) by (apply (tstop_seg_stop (c :: rest)); exact Ht).
+      pose proof (gsegs_not_ws q (c :: rest) Ht) as Hnwq.
+      assert (Hsegs : forall p, RunsG (75 + length q + qdep q) (ECall R_segments) ANonAtomic (gsegs_text q ++ c :: rest) p
+                          (Ok (c :: rest) (p + length (gsegs_text q))
+                              [Pair R_segments p (p + length (gsegs_text q)) (gsegs_pairs p q)])).
+      { intros p. apply (gsegments_runs sel stext spair sok sdep sel_runs sel_not_ws q (c :: rest) p Hq Hss). }
+      destruct abs; cbn [app]; pegd_upto.
+    - (* nested call *)
+      intros f IHf Hok c rest pos Hc. cbn [argok argtext argdep argpair] in *. specialize (IHf Hok).
+      pegd_upto.
+  Qed.
+
+  Lemma fn_runs f : Pf f.
+  Proof. apply fn_arg_all. Qed.
+
+  (* ---------- comparables, function calls included ---------- *)
+  Inductive xcmp := XCB (c : xcmpb) | XCF (f : xfn).
+  Definition gcmp_text (c : xcmp) : str := match c with XCB c => xcmpb_text c | XCF f => ftext f end.
+  Definition gcmp_ok (c : xcmp) : Prop := match c with XCB c => xcmpb_ok c | XCF f => fok f end.
+  Definition gcmp_pair (pos : nat) (c : xcmp) : pair rname :=
+    match c with
+    | XCB c => xcmpb_pair pos c
+    | XCF f => Pair R_comparable pos (pos + length (ftext f)) [fpair pos f]
+    end.
+  Definition gcmp_dep (c : xcmp) : nat :=
+    match c with XCB c => 120 + length (xcmpb_text c) | XCF f => 20 + fdep f end.
+
+  Lemma gcomparable_runs c c0 rest pos :
+    gcmp_ok c -> qstop_char c0 ->
+    RunsG (gcmp_dep c) (ECall R_comparable) ANonAtomic (gcmp_text c ++ c0 :: rest) pos
+          (Ok (c0 :: rest) (pos + length (gcmp_text c)) [gcmp_pair pos c]).
+  Proof.
+    intros Hc H0. destruct c as [c|f]; cbn [gcmp_ok gcmp_text gcmp_dep gcmp_pair] in *.
+    - apply comparable_runs; assumption.
+    - pose proof (fn_runs f Hc) as Hf. pose proof (fdep_ge f). pegd_upto.
+  Qed.
+
+  Lemma gcmp_start c tail : gcmp_ok c -> cmp_start (gcmp_text c ++ tail).
+  Proof.
+    intros Hc. destruct c as [c|f]; cbn [gcmp_ok gcmp_text] in *.
+    - apply xcmpb_start. exact Hc.
+    - destruct (ftext_head f tail) as [h [t [E Hh]]]. rewrite E. cbn [cmp_start not_ws]. split; [lia|repeat split; lia].
+  Qed.
+
+  Definition gxcmp_text (o : cmpop) (l r : xcmp) : str := gcmp_text l ++ op_text o ++ gcmp_text r.
+  Definition gxcmp_pair (pos : nat) (o : cmpop) (l r : xcmp) : pair rname :=
+    let p1 := pos + length (gcmp_text l) in
+    let p2 := p1 + length (op_text o) in
+    Pair R_comp_expr pos (pos + length (gxcmp_text o l r))
+         [gcmp_pair pos l; Pair R_comp_op p1 p2 []; gcmp_pair p2 r].
+
+  Lemma gcomp_expr_runs o l r c0 rest pos :
+    gcmp_ok l -> gcmp_ok r -> qstop_char c0 ->
+    RunsG (40 + (gcmp_dep l + gcmp_dep r)) (ECall R_comp_expr) ANonAtomic (gxcmp_text o l r ++ c0 :: rest) pos
+          (Ok (c0 :: rest) (pos + length (gxcmp_text o l r)) [gxcmp_pair pos o l r]).
+  Proof.
+    intros Hl Hr H0. unfold gxcmp_pair, gxcmp_text. repeat rewrite <- app_assoc.
+    destruct (op_text_head o (gcmp_text r ++ c0 :: rest)) as [c1 [t1 [E1 Hc1]]].
+    pose proof (gcmp_start r (c0 :: rest) Hr) as Hstart.
+    assert (Hnw_op : not_ws (op_text o ++ gcmp_text r ++ c0 :: rest)).
+    { rewrite E1. apply (seg_stop_not_ws (c1 :: t1)). exact Hc1. }
+    assert (Hnw_r : not_ws (gcmp_text r ++ c0 :: rest)).
+    { destruct (gcmp_text r ++ c0 :: rest); [destruct Hstart|apply Hstart]. }
+    assert (Hnw0 : not_ws (c0 :: rest)) by (apply (seg_stop_not_ws (c0 :: rest)); exact H0).
+    eapply runs_conv.
+    - eapply runs_call; [reflexivity|]. cbn [call_atomicity].
+      eapply runs_seq.
+      { eapply runs_seq.
+        { eapply runs_seq.
+          { eapply runs_seq.
+            { rewrite E1. apply gcomparable_runs; assumption. }
+            { red_res. rewrite <- E1. apply skip_none. exact Hnw_op. }
+            { red_res. apply S_none. exact Hnw_op. } }
+          { red_res. apply skip_none. exact Hnw_op. }
+          { red_res. apply comp_op_runs. exact Hstart. } }
+        { red_res. apply skip_none. exact Hnw_r. }
+        { red_res. apply S_none. exact Hnw_r. } }
+      { red_res. apply skip_none. exact Hnw_r. }
+      { red_res. apply gcomparable_runs; assumption. }
+    - norm_len. bound.
+    - red_res. norm_len. repeat (f_equal; try lia).
+  Qed.
+
+  (* where a function call stands as a test, a comparison cannot be read: the comparable takes the whole call and
+     no comparison operator follows *)
+  Lemma comp_expr_fails_fn f stop pos :
+    fok f -> tstop stop ->
+    RunsG (60 + fdep f) (ECall R_comp_expr) ANonAtomic (ftext f ++ stop) pos Fail.
+  Proof.
+    intros Hf Hstop. pose proof (fn_runs f Hf) as Hrun. pose proof (fdep_ge f) as Hge.
+    pose proof (tstop_not_ws_early stop Hstop) as Hnws.
+    assert (Hop : forall p, RunsG 20 (ECall R_comp_op) ANonAtomic stop p Fail).
+    { intros p. apply comp_op_fail_on. destruct stop as [|c r]; [exact I|]. right. right. exact Hstop. }
+    eapply runs_conv; [|shelve|shelve].
+    eapply runs_call; [reflexivity|]. cbn [call_atomicity].
+    eapply runs_seq.
+    { eapply runs_seq.
+      { eapply runs_seq.
+        { eapply runs_seq.
+          { pegd. }
+          { red_res. apply skip_none. exact Hnws. }
+          { red_res. apply S_none. exact Hnws. } }
+        { red_res. apply skip_none. exact Hnws. }
+        { red_res. apply Hop. } }
+      { red_res. split; reflexivity. }
+      { red_res. split; reflexivity. } }
+    { red_res. split; reflexivity. }
+    { red_res. split; reflexivity. }
+    Unshelve.
+    + norm_len. bound.
+    + red_res. reflexivity.
+  Qed.
+
+  Lemma atom_alts_fail_negfn f tail pos :
+    RunsG 40 (EAlt (ECall R_paren_expr) (ECall R_comp_expr)) ANonAtomic (33%N :: ftext f ++ tail) pos Fail.
+  Proof. destruct f as [[| |] a|[|] a b]; cbn [ftext fn1_name fn2_name app]; pegd_upto. Qed.
+
   (* ---------- logical expressions ---------- *)
   Inductive xatom :=
   | XParen (neg : bool) (e : list (list xatom))      (* (e) or !(e); e = or-list of and-lists of atoms *)
   | XTest (neg abs : bool) (q : list gseg)           (* @segments / $segments, possibly negated *)
-  | XCmp (o : cmpop) (l r : xcmpb).
+  | XCmp (o : cmpop) (l r : xcmp)
+  | XFnTest (neg : bool) (f : xfn).                   (* a function call as a test, possibly negated *)
 
   Definition join {A} (sep : str) (f : A -> str) : list A -> str :=
     fix go (l : list A) : str :=
@@ -593,7 +931,8 @@ Section Atoms.
     match a with
     | XParen neg e => bang neg ++ 40%N :: join s_or (join s_and atext) e ++ [41%N]
     | XTest neg abs q => bang neg ++ (if abs then 36%N else 64%N) :: gsegs_text q
-    | XCmp o l r => xcmp_text o l r
+    | XCmp o l r => gxcmp_text o l r
+    | XFnTest neg f => bang neg ++ ftext f
     end.
   Definition and_text (c : list xatom) : str := join s_and atext c.
   Definition or_text (e : list (list xatom)) : str := join s_or and_text e.
@@ -626,7 +965,10 @@ Section Atoms.
                  [Pair R_test p1 en
                        [Pair (if abs then R_jp_query else R_rel_query) p1 en
                              [Pair R_segments (p1 + 1) en (gsegs_pairs (p1 + 1) q)]]])
-       | XCmp o l r => xcmp_pair pos o l r
+       | XCmp o l r => gxcmp_pair pos o l r
+       | XFnTest neg f =>
+           let p1 := pos + length (bang neg) in
+           Pair R_test_expr pos en (not_pairs neg pos ++ [Pair R_test p1 en [fpair p1 f]])
        end].
   Definition and_pair (pos : nat) (c : list xatom) : pair rname :=
     Pair R_logical_expr_and pos (pos + length (and_text c)) (pairs_sep (fun a => length (atext a)) apair pos c).
@@ -636,14 +978,16 @@ Section Atoms.
   Inductive aok : xatom -> Prop :=
   | aok_paren neg e : e <> [] -> (forall c, In c e -> c <> [] /\ forall a, In a c -> aok a) -> aok (XParen neg e)
   | aok_test neg abs q : Forall gseg_ok q -> aok (XTest neg abs q)
-  | aok_cmp o l r : xcmpb_ok l -> xcmpb_ok r -> aok (XCmp o l r).
+  | aok_cmp o l r : gcmp_ok l -> gcmp_ok r -> aok (XCmp o l r)
+  | aok_fn neg f : fok f -> aok (XFnTest neg f).
 
   Definition lmax {A} (f : A -> nat) (l : list A) : nat := fold_right (fun x acc => Nat.max (f x) acc) 0 l.
   Fixpoint adep (a : xatom) : nat :=
     match a with
     | XParen neg e => 120 + (length e + lmax (fun c => 60 + (length c + lmax adep c)) e)
     | XTest neg abs q => 260 + (length q + qdep q)
-    | XCmp o l r => 200 + length (xcmp_text o l r)
+    | XCmp o l r => 100 + (gcmp_dep l + gcmp_dep r)
+    | XFnTest neg f => 140 + fdep f
     end.
   Definition cdep (c : list xatom) : nat := 60 + (length c + lmax adep c).
   Definition edep (e : list (list xatom)) : nat := 60 + (length e + lmax cdep e).
@@ -709,10 +1053,13 @@ Section Atoms.
   Qed.
   Lemma atext_not_ws a tail : aok a -> not_ws (atext a ++ tail).
   Proof.
-    intros H. destruct H as [neg e _ _|neg abs q _|o l r Hl _]; cbn [atext].
+    intros H. destruct H as [neg e _ _|neg abs q _|o l r Hl _|neg f Hf]; cbn [atext].
     - destruct neg; cbn [bang app not_ws]; repeat split; discriminate.
     - destruct neg, abs; cbn [bang app not_ws]; repeat split; discriminate.
-    - unfold xcmp_text. rewrite <- app_assoc. apply xcmpb_not_ws. exact Hl.
+    - unfold gxcmp_text. rewrite <- app_assoc. set (t := (op_text o ++ gcmp_text r) ++ tail).
+      pose proof (gcmp_start l t Hl) as Hs. destruct (gcmp_text l ++ t); [destruct Hs|apply Hs].
+    - destruct neg; cbn [bang app]; [cbn [not_ws]; repeat split; discriminate|].
+      destruct (ftext_head f tail) as [h [t [E Hh]]]. rewrite E. cbn [not_ws]. repeat split; lia.
   Qed.
 
   Definition Patom (a : xatom) : Prop :=
@@ -940,28 +1287,77 @@ Section Atoms.
     all: eapply runs_conv; [pegd|norm_len; bound|red_res; reflexivity].
   Qed.
 
+  Lemma gparen_fails_cmp c tail pos :
+    gcmp_ok c -> RunsG 40 (ECall R_paren_expr) ANonAtomic (gcmp_text c ++ tail) pos Fail.
+  Proof.
+    intros Hc. destruct c as [c|f]; cbn [gcmp_ok gcmp_text] in *; [apply paren_fails_cmp; exact Hc|apply paren_fails_fn].
+  Qed.
+
   Lemma atom_cmp o l r : Patom (XCmp o l r).
   Proof.
-    intros stop pos Ha Hstop. inversion Ha as [| |o' l' r' Hl Hr]; subst.
+    intros stop pos Ha Hstop. inversion Ha as [| |o' l' r' Hl Hr|]; subst.
     destruct stop as [|c0 rest]; [destruct Hstop|]. cbn [tstop] in Hstop. pose proof (tstop_qstop c0 Hstop) as Hq.
     cbn [atext adep apair].
-    pose proof (paren_fails_cmp l (op_text o ++ xcmpb_text r ++ c0 :: rest) pos Hl) as Hp.
-    unfold xcmp_text. repeat rewrite <- app_assoc. 
+    pose proof (gparen_fails_cmp l (op_text o ++ gcmp_text r ++ c0 :: rest) pos Hl) as Hp.
+    unfold gxcmp_text. repeat rewrite <- app_assoc. 
     eapply runs_conv.
     - eapply runs_call; [reflexivity|]. cbn [call_atomicity].
       eapply runs_alt.
       { eapply runs_alt.
         { exact Hp. }
-        { red_res. pose proof (comp_expr_runs o l r c0 rest pos Hl Hr Hq) as Hc.
-          unfold xcmp_text in Hc. repeat rewrite <- app_assoc in Hc. exact Hc. } }
+        { red_res. pose proof (gcomp_expr_runs o l r c0 rest pos Hl Hr Hq) as Hc.
+          unfold gxcmp_text in Hc. repeat rewrite <- app_assoc in Hc. exact Hc. } }
       { red_res. split; reflexivity. }
-    - unfold xcmp_text. norm_len. bound.
-    - red_res. unfold xcmp_text. norm_len. repeat (f_equal; try lia).
+    - unfold gxcmp_text. norm_len. bound.
+    - red_res. unfold gxcmp_text. norm_len. repeat (f_equal; try lia).
+  Qed.
+
+  (* a function call as a test *)
+  Lemma atom_fntest neg f : Patom (XFnTest neg f).
+  Proof.
+    intros stop pos Ha Hstop. inversion Ha as [| | |neg' f' Hf]; subst.
+    pose proof (fn_runs f Hf) as Hrun. pose proof (fdep_ge f) as Hge.
+    pose proof (tstop_not_ws stop Hstop) as Hnws.
+    assert (Hnwf : not_ws (ftext f ++ stop)).
+    { destruct (ftext_head f stop) as [h [t [E Hh]]]. rewrite E. cbn [not_ws]. repeat split; lia. }
+    cbn [atext adep apair].
+    destruct neg; cbn [bang app length not_pairs]; rewrite ?Nat.add_0_r.
+    - (* !f(...) *)
+      eapply runs_conv.
+      + eapply runs_call; [reflexivity|]. cbn [call_atomicity].
+        eapply runs_alt.
+        { apply atom_alts_fail_negfn. }
+        { red_res. eapply runs_call; [reflexivity|]. cbn [call_atomicity].
+          eapply runs_seq.
+          { eapply runs_seq; [pegd|red_res; apply skip_none; exact Hnwf|red_res; apply S_none; exact Hnwf]. }
+          { red_res. apply skip_none. exact Hnwf. }
+          { red_res. eapply runs_call; [reflexivity|]. cbn [call_atomicity].
+            eapply runs_alt.
+            { eapply runs_alt; [apply rel_query_fails_fn|red_res; apply jp_query_fails_fn]. }
+            { red_res. apply Hrun. } } }
+      + norm_len. bound.
+      + red_res. norm_len. repeat (f_equal; try lia).
+    - (* f(...) *)
+      pose proof (comp_expr_fails_fn f stop pos Hf Hstop) as Hcmp.
+      eapply runs_conv.
+      + eapply runs_call; [reflexivity|]. cbn [call_atomicity].
+        eapply runs_alt.
+        { eapply runs_alt; [apply paren_fails_fn|red_res; exact Hcmp]. }
+        { red_res. eapply runs_call; [reflexivity|]. cbn [call_atomicity].
+          eapply runs_seq.
+          { eapply runs_seq; [apply not_op_none_fn|red_res; apply skip_none; exact Hnwf|red_res; apply S_none; exact Hnwf]. }
+          { red_res. apply skip_none. exact Hnwf. }
+          { red_res. eapply runs_call; [reflexivity|]. cbn [call_atomicity].
+            eapply runs_alt.
+            { eapply runs_alt; [apply rel_query_fails_fn|red_res; apply jp_query_fails_fn]. }
+            { red_res. apply Hrun. } } }
+      + norm_len. bound.
+      + red_res. norm_len. repeat (f_equal; try lia).
   Qed.
 
   Lemma atom_test neg abs q : Patom (XTest neg abs q).
   Proof.
-    intros stop pos Ha Hstop. inversion Ha as [|neg' abs' q' Hq|]; subst.
+    intros stop pos Ha Hstop. inversion Ha as [|neg' abs' q' Hq| |]; subst.
     pose proof (tstop_seg_stop stop Hstop) as Hss.
     pose proof (gsegs_not_ws q stop Hstop) as Hnwq.
     cbn [atext adep apair].
@@ -1072,7 +1468,7 @@ Section Atoms.
   Lemma atom_paren neg e :
     (forall c, In c e -> forall a, In a c -> Patom a) -> Patom (XParen neg e).
   Proof.
-    intros HP stop pos Ha Hstop. inversion Ha as [neg' e' Hne He| |]; subst.
+    intros HP stop pos Ha Hstop. inversion Ha as [neg' e' Hne He| | |]; subst.
     pose proof (por_of e Hne He HP) as Hor.
     pose proof (tstop_not_ws stop Hstop) as Hnws.
     assert (Hnwe : forall tail, not_ws (or_text e ++ tail)) by (intros tail; apply or_text_not_ws; assumption).
@@ -1140,10 +1536,11 @@ Section Atoms.
   Proof.
     induction n as [|n IH]; intros a Hs.
     - destruct a; cbn [asize] in Hs; lia.
-    - destruct a as [neg e|neg abs q|o l r].
+    - destruct a as [neg e|neg abs q|o l r|neg f].
       + apply atom_paren. intros c Hc a Ha. apply IH. pose proof (asize_in_paren neg e c a Hc Ha). lia.
       + apply atom_test.
       + apply atom_cmp.
+      + apply atom_fntest.
   Qed.
 
   (* the rule logical_expr on every well-formed expression *)
